@@ -232,7 +232,11 @@ func driveCmdRace(ci int, c *Case, rnd *rand.Rand) []recEvent {
 	dispatchIdx := -1 // event of the call that dispatched the pending command
 	var dispatchAt time.Time
 	polls := 0
-	for call := 0; call < 8000; call++ {
+	maxCalls := 8000 // polls included
+	if waitOnly {
+		maxCalls = 900
+	}
+	for call := 0; call < maxCalls; call++ {
 		if pending && kind == kUnknown {
 			select {
 			case <-g.started:
